@@ -217,6 +217,7 @@ class Body:
         self.blocks = d['blocks']
         self.locals = d['locals']
         self.argc = d['argc']
+        self.inlined_params = frozenset(d.get('inlined_params', ()))      # parameters of helpers spliced in by vpa/mirinline.py
         self.kind = d['kind']
         self.vis = d['vis']
         self.exp = d['span']['exp']
@@ -724,6 +725,13 @@ class Dag:
         return ('other',)
 
     def place(self, pl, bb, pos):
+        # a read THROUGH a `&mut` alias of another local (`let s = &mut *self; .. s.transform ..`, as produced by inlining a `&mut self`
+        # helper) is a read of that local: only so does it see the writes made to it earlier in this function
+        if pl['p'] and pl['p'][0] == 'deref' and pl['l'] in self.b.inlined_params:
+            al = self.b.aliases().get(pl['l'])
+            if al is not None and not al[2] and all(isinstance(x, str) and not x.startswith('as ') for x in al[1]) and al[0] != pl['l']:
+                root_is_ref = self.b.local_ty(al[0]).startswith('&')
+                pl = {'l': al[0], 'p': (['deref'] if root_is_ref else []) + [{'f': -1, 'n': x} for x in al[1]] + list(pl['p'][1:])}
         first = None
         for e in pl['p']:
             if e == 'deref':
